@@ -6,6 +6,7 @@ require (
 	github.com/opencontainers/go-digest v1.0.0
 	github.com/tonistiigi/fsutil v0.0.0
 	golang.org/x/sys v0.11.0
+	google.golang.org/protobuf v1.31.0
 )
 
 require (
@@ -14,7 +15,6 @@ require (
 	github.com/pkg/errors v0.9.1 // indirect
 	github.com/planetscale/vtprotobuf v0.6.0 // indirect
 	golang.org/x/sync v0.1.0 // indirect
-	google.golang.org/protobuf v1.31.0 // indirect
 )
 
 replace github.com/tonistiigi/fsutil => /repo
